@@ -22,12 +22,16 @@ pub struct Recorder<P: Payload + Clone> {
     /// id tokens that were skipped by state injection (no real id exists for them)
     pub phantom: u32,
     pub broken: bool,
+    /// an arena holding an EARLIER state of some history (its own vacant slots, stamps, free list): the destination of
+    /// the next `clone_from`
+    pub scratch: Option<indextree::Arena<P>>,
+    pub swaps: u64,
 }
 
 impl<P: Payload + Clone> Recorder<P> {
     pub fn new(path: &str, seed: u64) -> Self {
         let f = std::fs::File::create(path).expect("cannot create trace file");
-        Recorder { sim: Sim::new(), out: std::io::BufWriter::new(f), pending: format!("{}.pending", path), events: 0, rng: StdRng::seed_from_u64(seed), next_val: 1, phantom: 0, broken: false }
+        Recorder { sim: Sim::new(), out: std::io::BufWriter::new(f), pending: format!("{}.pending", path), events: 0, rng: StdRng::seed_from_u64(seed), next_val: 1, phantom: 0, broken: false, scratch: None, swaps: 0 }
     }
 
     fn isrem_sample(&mut self) -> Vec<[u32; 2]> {
@@ -167,9 +171,19 @@ impl<P: Payload + Clone> Recorder<P> {
         let mut eq = true;
         match op {
             "clone_swap" => {
-                let c = self.sim.arena.clone();
+                // the history continues on a copy: alternately a fresh clone() and an OLDER arena (an earlier state with
+                // its own vacant slots, stamps and free list) overwritten by clone_from(&arena)
+                self.swaps += 1;
+                let c = match self.scratch.take() {
+                    Some(mut old) if self.swaps % 2 == 0 => {
+                        old.clone_from(&self.sim.arena);
+                        old
+                    }
+                    _ => self.sim.arena.clone(),
+                };
                 eq = c == self.sim.arena;
-                self.sim.arena = c;
+                let prev = std::mem::replace(&mut self.sim.arena, c);
+                self.scratch = Some(prev);
             }
             "round_trip" => match P::round_trip(&self.sim.arena) {
                 Some((c, e)) => {
